@@ -1502,6 +1502,8 @@ class Engine:
                     return unbox(sh.get(c.term, k.pyval), sh.fields[k.pyval])
             if isinstance(sh, TDict):
                 kt = box(k, sh.k)
+                if getattr(sh, 'counter', False):
+                    return unbox(z3.If(sh.has(c.term, kt), sh.get(c.term, kt), z3.IntVal(0)), sh.v)
                 if safe:
                     self.safety(st, sh.has(c.term, kt), 'key', node)
                 return unbox(sh.get(c.term, kt), sh.v)
